@@ -1093,8 +1093,15 @@ impl Reset for JsObject {
         self.frozen = false;
         self.sealed = false;
         self.null_prototype = false;
-        // clear() preserves capacity, avoiding reallocation for reused objects
-        self.properties.clear();
+        // A reused object must be indistinguishable from a fresh one: storage that had
+        // grown into a hash map would keep enumerating its new properties in hash order
+        // (and with another capacity) instead of starting inline again, so what a program
+        // sees would depend on when the collector ran.
+        if matches!(self.properties, PropertyStorage::Map(_)) {
+            self.properties = PropertyStorage::new();
+        } else {
+            self.properties.clear();
+        }
         self.exotic = ExoticObject::Ordinary;
         self.private_fields = None;
     }
